@@ -977,6 +977,16 @@ func c19NewSut(cs *c19Case) (*c19Sut, error) {
 			}
 		}
 		s.client = c
+		if len(cs.Chain)%2 == 1 {
+			// requests through a clone of a clone: the chain is the same chain
+			if c2, err := c.Clone(); err == nil {
+				if c3, err := c2.Clone(); err == nil {
+					s.client = c3
+					_ = c.Close()
+				}
+				_ = c2.Close()
+			}
+		}
 	case "server":
 		s.exec = kmipserver.NewBatchExecutor()
 		{
